@@ -493,6 +493,22 @@ theorem typeUndefined_typeDict_arr (key : String) (xs : List Int) :
   simp only [typeDict, shapeArray, Val.ofInts]
   split <;> simp [typeUndefined]
 
+theorem typeUndefined_typeDict_flattenArray (key : String) (it : Val) (xs : List Int) :
+    typeUndefined (typeDict key (flattenArray it xs)) = false := by
+  unfold flattenArray
+  split
+  · split
+    · simp [typeDict, typeUndefined]
+    · exact typeUndefined_typeDict_arr _ _
+  · exact typeUndefined_typeDict_arr _ _
+
+theorem flattenShapes_defined (p : Node) (out : Val) (b : Bool) (h : flattenShapes p = .ok (out, b)) :
+    typeUndefined (typeDict "output" out) = false := by
+  simp only [flattenShapes, bind, Except.bind, pure, Except.pure] at h
+  repeat' split at h
+  all_goals (try cases h)
+  all_goals exact typeUndefined_typeDict_flattenArray _ _ _
+
 theorem convOutputType_defined (p : Node) (v t : Val) (h : convOutputType p v = .ok t) :
     typeUndefined t = false := by
   simp only [convOutputType, bind, Except.bind, pure, Except.pure] at h
@@ -634,11 +650,12 @@ theorem stepNode_defined (pre post : Node) (hpre : typeUndefined pre.outputType 
               cases hf : flattenShapes post2 with
               | error e => simp [hf] at hok
               | ok r =>
-                obtain ⟨shp, out⟩ := r
+                obtain ⟨out, cok⟩ := r
                 simp only [hf] at hok ⊢
-                split
-                · cases post2; exact ⟨d2, typeUndefined_typeDict_arr _ _⟩
-                · rename_i hne; simp [hne] at hok
+                have hdef := flattenShapes_defined _ _ _ hf
+                cases cok with
+                | true => simp only [if_true]; cases post2; exact ⟨d2, hdef⟩
+                | false => simp at hok
             · -- not an inferable kind: its output type was defined all along
               exfalso
               rcases hstat with hinf | hdef
